@@ -15,6 +15,7 @@ Typing: every Python name in scope is bound to (lean term, type) with type one o
 from __future__ import annotations
 
 import ast
+import json
 import re
 
 
@@ -1406,3 +1407,223 @@ def gen_lp_steps(an: ast.AST) -> str:
             out.append(f"  {pat} =>\n      {body}")
         out.append("")
     return "\n".join(out)
+
+
+# ======================================================================================================
+#  analysis.py: `_compute_degree_iterative` — one iteration of the `while stack:` loop as a Lean function
+#     degIterStepG recE (f : Frame) (stk : List Frame) (rs : List Deg) : Except MachErr St
+# ======================================================================================================
+
+class StackCompiler:
+    """body of `while stack: node, phase, left_deg, right_deg = stack.pop(); …` with `continue`s"""
+
+    def __init__(self):
+        self.fresh = 0
+
+    def new(self, b):
+        self.fresh += 1
+        return f"{b}{self.fresh}"
+
+    # Nat / Deg valued expressions -------------------------------------------------------------------------
+    def nat(self, node, env):
+        k = ast.unparse(node)
+        if k in env and env[k][1] == "Nat":
+            return env[k][0]
+        if isinstance(node, ast.Constant) and isinstance(node.value, int) and not isinstance(node.value, bool) and node.value >= 0:
+            return str(node.value)
+        if isinstance(node, ast.Call) and isinstance(node.func, ast.Name):
+            if node.func.id == "max" and len(node.args) == 2:
+                return f"(max {self.nat(node.args[0], env)} {self.nat(node.args[1], env)})"
+            if node.func.id == "int" and len(node.args) == 1:
+                ak = ast.unparse(node.args[0])
+                if ak in env and env[ak][1] == "NatOfFloat":
+                    return env[ak][0]
+        if isinstance(node, ast.BinOp) and isinstance(node.op, (ast.Add, ast.Mult)):
+            return f"({self.nat(node.left, env)} {'+' if isinstance(node.op, ast.Add) else '*'} {self.nat(node.right, env)})"
+        raise TranslateError(f"unsupported Nat expression {ast.unparse(node)!r} at line {getattr(node, 'lineno', '?')}")
+
+    def deg(self, node, env):
+        k = ast.unparse(node)
+        if isinstance(node, ast.Constant) and node.value is None:
+            return "none"
+        if k in env and env[k][1] == "Deg":
+            return env[k][0]
+        if isinstance(node, ast.Call) and ast.unparse(node.func) == "_compute_degree_impl" and len(node.args) == 1 \
+                and ast.unparse(node.args[0]) in env and env[ast.unparse(node.args[0])][1] == "Expr":
+            return f"recE {env[ast.unparse(node.args[0])][0]}"
+        return f"some ({self.nat(node, env)})"
+
+    def cond(self, node, env):
+        if isinstance(node, ast.BoolOp):
+            return "(" + (" && " if isinstance(node.op, ast.And) else " || ").join(self.cond(v, env) for v in node.values) + ")"
+        if isinstance(node, ast.Compare) and len(node.ops) == 1:
+            l, r, o = node.left, node.comparators[0], node.ops[0]
+            lk = ast.unparse(l)
+            if lk in env and env[lk][1] in ("BinOp", "UnOp"):
+                tag = (lambda c: "." + (BINOP_NAMES[c.value] if env[lk][1] == "BinOp" else c.value))
+                if isinstance(o, ast.Eq):
+                    return f"({env[lk][0]} == {tag(r)})"
+                if isinstance(o, ast.In) and isinstance(r, ast.Tuple):
+                    return "(" + " || ".join(f"{env[lk][0]} == {tag(e)}" for e in r.elts) + ")"
+            if lk in env and env[lk][1] == "Phase" and isinstance(o, ast.Eq) and isinstance(r, ast.Constant):
+                return f"({env[lk][0]} == {r.value})"
+            sym = {ast.Gt: ">", ast.Lt: "<", ast.GtE: "≥", ast.LtE: "≤"}.get(type(o))
+            if sym:
+                return f"(decide ({self.nat(l, env)} {sym} {self.nat(r, env)}))"
+        raise TranslateError(f"unsupported condition {ast.unparse(node)!r} at line {getattr(node, 'lineno', '?')}")
+
+    # statement blocks -------------------------------------------------------------------------------------
+    def block(self, stmts, env, ind, stk, rs):
+        stmts = [s for s in stmts if not RuleCompiler.skip(s)]
+        nl = "\n" + ind
+        if not stmts or isinstance(stmts[0], ast.Continue):
+            return f".ok ⟨{stk}, {rs}⟩"
+        s, rest = stmts[0], stmts[1:]
+        if isinstance(s, ast.Expr) and isinstance(s.value, ast.Call):
+            fn, args = ast.unparse(s.value.func), s.value.args
+            if fn == "result_stack.append" and len(args) == 1:
+                a = args[0]
+                if ast.unparse(a) == "result_stack.pop()":
+                    x, rs2 = self.new("x"), self.new("rs")
+                    return (f"match {rs} with{nl}| [] => .error .popEmpty{nl}| {x} :: {rs2} =>{nl}  "
+                            + self.block(rest, env, ind + "  ", stk, f"({x} :: {rs2})"))
+                return self.block(rest, env, ind, stk, f"({self.deg(a, env)} :: {rs})")
+            if fn == "stack.append" and len(args) == 1 and isinstance(args[0], ast.Tuple) and len(args[0].elts) == 4:
+                e, ph, ld, rd = args[0].elts
+                ek = ast.unparse(e)
+                if ek not in env or env[ek][1] != "Expr" or ast.unparse(rd) != "None" or not isinstance(ph, ast.Constant):
+                    raise TranslateError(f"unsupported stack entry {ast.unparse(args[0])!r} (line {s.lineno})")
+                ldt = "none" if ast.unparse(ld) == "None" else self.deg(ld, env)
+                return self.block(rest, env, ind, f"(⟨{env[ek][0]}, {ph.value}, {ldt}⟩ :: {stk})", rs)
+        if isinstance(s, ast.Assign) and len(s.targets) == 1 and isinstance(s.targets[0], ast.Name):
+            name, val = s.targets[0].id, s.value
+            u = ast.unparse(val)
+            env2 = dict(env)
+            if u == "result_stack.pop()":
+                x, rs2 = self.new("x"), self.new("rs")
+                env2[name] = (x, "Deg")
+                return (f"match {rs} with{nl}| [] => .error .popEmpty{nl}| {x} :: {rs2} =>{nl}  "
+                        + self.block(rest, env2, ind + "  ", stk, rs2))
+            if u in env:
+                env2[name] = env[u]
+                return self.block(rest, env2, ind, stk, rs)
+            if isinstance(val, ast.Call) and ast.unparse(val.func) == "float" and ast.unparse(val.args[0]) in env \
+                    and env[ast.unparse(val.args[0])][1] == "Cst":
+                env2[name] = env[ast.unparse(val.args[0])]
+                return self.block(rest, env2, ind, stk, rs)
+            raise TranslateError(f"unsupported assignment {name} = {u[:50]!r} (line {s.lineno})")
+        if isinstance(s, ast.If):
+            return self.if_(s, rest, env, ind, stk, rs)
+        raise TranslateError(f"unsupported statement {ast.unparse(s)[:70]!r} at line {s.lineno}")
+
+    @staticmethod
+    def ends(stmts):
+        stmts = [s for s in stmts if not RuleCompiler.skip(s)]
+        if not stmts:
+            return False
+        s = stmts[-1]
+        if isinstance(s, ast.Continue):
+            return True
+        if isinstance(s, ast.If) and s.orelse:
+            return StackCompiler.ends(s.body) and StackCompiler.ends(s.orelse)
+        return False
+
+    def if_(self, s, rest, env, ind, stk, rs):
+        nl = "\n" + ind
+        body = s.body if self.ends(s.body) else s.body + rest
+        orelse = (s.orelse if s.orelse and self.ends(s.orelse) else (s.orelse or []) + rest)
+        test, neg = s.test, False
+        if isinstance(test, ast.UnaryOp) and isinstance(test.op, ast.Not):
+            test, neg = test.operand, True
+        go = lambda st, e: self.block(st, e, ind + "  ", stk, rs)
+        if isinstance(test, ast.Call) and ast.unparse(test.func) == "isinstance" and len(test.args) == 2:
+            xk, what = ast.unparse(test.args[0]), ast.unparse(test.args[1])
+            if xk in env and env[xk][1] == "Expr" and what == "Constant":
+                c = self.new("c")
+                env2 = dict(env); env2[xk + ".value"] = (c, "Cst")
+                yes, no = (orelse, body) if neg else (body, orelse)
+                return f"match {env[xk][0]} with{nl}| .const {c} =>{nl}  {go(yes, env2)}{nl}| _ =>{nl}  {go(no, env)}"
+            if xk in env and env[xk][1] in ("Cst",) and what == "numbers.Number":
+                return self.block(orelse if neg else body, env, ind, stk, rs)
+            raise TranslateError(f"unsupported type test {ast.unparse(s.test)!r} at line {s.lineno}")
+        # `not x.is_integer() or x < 0`
+        if isinstance(s.test, ast.BoolOp) and isinstance(s.test.op, ast.Or) and len(s.test.values) == 2:
+            a0, a1 = (ast.unparse(v) for v in s.test.values)
+            if a0.startswith("not ") and a0.endswith(".is_integer()"):
+                x = a0[4:-len(".is_integer()")]
+                if a1 == f"{x} < 0" and x in env and env[x][1] == "Cst":
+                    n = self.new("n")
+                    env2 = dict(env); env2[x] = (n, "NatOfFloat")
+                    return f"match cstNat {env[x][0]} with{nl}| none =>{nl}  {go(body, env)}{nl}| some {n} =>{nl}  {go(orelse, env2)}"
+        # `a is None [or b is None]`
+        parts = s.test.values if isinstance(s.test, ast.BoolOp) and isinstance(s.test.op, ast.Or) else [s.test]
+        names = []
+        for p in parts:
+            if isinstance(p, ast.Compare) and len(p.ops) == 1 and isinstance(p.ops[0], ast.Is) and ast.unparse(p.comparators[0]) == "None" \
+                    and ast.unparse(p.left) in env and env[ast.unparse(p.left)][1] == "Deg":
+                names.append(ast.unparse(p.left))
+        if names and len(names) == len(parts):
+            none_branch = self.block(body, env, ind + "  " * len(names), stk, rs)
+            env2 = dict(env)
+            out, pad = "", ind
+            for nm in names:
+                v = self.new("d")
+                out += f"match {env[nm][0]} with\n{pad}| none =>\n{pad}  {none_branch}\n{pad}| some {v} =>\n{pad}  "
+                env2[nm] = (v, "Nat")
+                pad += "  "
+            return out + self.block(orelse, env2, pad, stk, rs)
+        c = self.cond(test, env)
+        if neg:
+            c = f"(!{c})"
+        return f"if {c} then{nl}  {go(body, env)}{nl}else{nl}  {go(orelse, env)}"
+
+
+def gen_degree_iter_step(an: ast.AST) -> str:
+    fn = find_func(an, "_compute_degree_iterative")
+    body = [s for s in fn.body if not RuleCompiler.skip(s)]
+    texts = [" ".join(ast.unparse(s).split()) for s in body]
+    if len(body) != 4 or not isinstance(body[2], ast.While) or ast.unparse(body[2].test) != "stack" or body[2].orelse:
+        raise TranslateError("_compute_degree_iterative: unexpected frame around the `while stack:` loop")
+    frame = [texts[0], texts[1], texts[3]]
+    loop = [s for s in body[2].body if not RuleCompiler.skip(s)]
+    if ast.unparse(loop[0]) != "node, phase, left_deg, right_deg = stack.pop()":
+        raise TranslateError("_compute_degree_iterative: the loop does not start by popping (node, phase, left_deg, right_deg)")
+    loop = loop[1:]
+    for n in ast.walk(body[2]):
+        if isinstance(n, ast.Name) and n.id == "right_deg" and isinstance(n.ctx, ast.Load):
+            raise TranslateError("_compute_degree_iterative: right_deg is read (the model does not represent it)")
+    out = ["/-- the statements around the loop: initial stack, empty result stack, final read-out -/",
+           "def degIterFrame : List String := [" + ", ".join(json.dumps(t) for t in frame) + "]", "",
+           "/-- one iteration of `while stack:` of `_compute_degree_iterative`, after `stack.pop()` returned `f`;",
+           "    `recE` stands for `_compute_degree_impl` (the delegate for node kinds other than BinaryOp / UnaryOp) -/",
+           "def degIterStepG (recE : Expr → Deg) (f : Frame) (stk : List Frame) (rs : List Deg) : Except MachErr St :=",
+           "  match f.node with"]
+    classes = {k for k, _, _ in CTORS}
+    for cls, ctor, fields in CTORS:
+        binders = " ".join(b for _, b, _ in fields)
+        env = {"node": ("f.node", "Expr"), "phase": ("f.phase", "Phase"), "left_deg": ("f.leftDeg", "Deg")}
+        for attr, b, ty in fields:
+            if attr:
+                env[f"node.{attr}"] = (b, ty)
+        stmts = []
+        done = False
+        for s in loop:
+            if isinstance(s, ast.If) and not s.orelse:
+                t, neg = s.test, False
+                if isinstance(t, ast.UnaryOp) and isinstance(t.op, ast.Not):
+                    t, neg = t.operand, True
+                cl = classes_of(t, "node")
+                if cl is not None:
+                    for c in cl:
+                        if c not in classes | NON_SCALAR:
+                            raise TranslateError(f"_compute_degree_iterative: class unknown to the model: {c}")
+                    if (cls in cl) != neg:
+                        stmts += list(s.body)
+                        if StackCompiler.ends(s.body):
+                            done = True
+                            break
+                    continue
+            stmts.append(s)
+        comp = StackCompiler()
+        out.append(f"  | .{ctor} {binders} =>\n      " + comp.block(stmts, env, "      ", "stk", "rs"))
+    return "\n".join(out) + "\n"
